@@ -1,8 +1,194 @@
-import AlgoVerif.Common
-/-! Line-protocol component for C07 — not built yet. -/
-namespace AlgoVerif.C07.Driver
+import AlgoVerif.Model.C07
+import AlgoVerif.Model.C07Radix
+import AlgoVerif.Spec.C07
+/-!
+Line-protocol component for C07.
 
-def runCase (_hdr : List String) (ops : List String) : List String :=
-  ops.map fun _ => "bad-case"
+Header: `comp=<algo> cmp=<asc|desc|mod3>`.  Comparison-sort elements are `key:id` (the comparator
+looks at the key only, so instability and permutation errors are visible in the output).
+Machine words are decimal (`int`: signed), strings are `x<hex>`.
+
+    sort <algo> e…            selection insertion shell merge mergerec quick3way heap quickcore (exact)
+    sort quick e…             public Quick (clock-seeded shuffle): runs of cmp-equal elements canonicalised
+    select <k> e…             public Select: the comparator class of the result
+    partition <lo> <hi> e…    hook VerifPartition: `ok j e…`
+    shuffle <c0,c1,…|-> e…    Shuffle with the scripted results of r.Intn
+    sort lsduint|msduint|lsdint|msdint w…      sort msdstring|q3string s…      lsdstring <w> s…
+    msdintat|msduintat|msdstringat|q3stringat <lo> <hi> <d> …   (hooks exposing the recursive cores)
+-/
+namespace AlgoVerif.C07.Driver
+open AlgoVerif AlgoVerif.C07
+
+abbrev Elem := Int × Int
+
+def sgn (a b : Int) : Int := if a < b then -1 else if a > b then 1 else 0
+
+/-- Go's `%` truncates towards zero -/
+def cls (name : String) (k : Int) : Int :=
+  if name == "mod3" then Int.tmod k 3 else k
+
+def cmpOf (name : String) : Elem → Elem → Int :=
+  if name == "desc" then fun a b => sgn b.1 a.1
+  else if name == "mod3" then fun a b => sgn (Int.tmod a.1 3) (Int.tmod b.1 3)
+  else fun a b => sgn a.1 b.1
+
+def parseElem (s : String) : Option Elem :=
+  match s.splitOn ":" with
+  | [k, i] => do let k ← k.toInt?; let i ← i.toInt?; pure (k, i)
+  | _ => none
+
+def parseAll {β} (p : String → Option β) (ws : List String) : Option (Array β) :=
+  ws.foldl (fun acc w => do let acc ← acc; let v ← p w; pure (acc.push v)) (some #[])
+
+def showElem (e : Elem) : String := s!"{e.1}:{e.2}"
+
+def showArr {β} (f : β → String) (a : Array β) : String :=
+  a.foldl (fun s e => s ++ " " ++ f e) "ok"
+
+def render {β} (f : β → String) : Outcome β → String
+  | .ok v => f v
+  | .panic => "panic"
+  | .diverge => "hang"
+
+/-- order on `(key, id)` used only to canonicalise runs of comparator-equal elements -/
+def elemLe (a b : Elem) : Bool := a.1 < b.1 || (a.1 == b.1 && a.2 ≤ b.2)
+
+/-- sort every maximal run of adjacent `cmp`-equal elements by `(key, id)` -/
+def canonRuns (cmp : Elem → Elem → Int) (a : Array Elem) : Array Elem := Id.run do
+  let mut out : Array Elem := #[]
+  let mut run : List Elem := []
+  for e in a do
+    match run with
+    | [] => run := [e]
+    | p :: _ =>
+      if cmp p e == 0 then run := e :: run
+      else
+        out := out ++ (run.mergeSort elemLe).toArray
+        run := [e]
+  out := out ++ (run.mergeSort elemLe).toArray
+  return out
+
+def parseChoices (s : String) : Option (Array Int) :=
+  if s == "-" then some #[] else parseAll (fun w => w.toInt?) (s.splitOn ",")
+
+def choiceFn (cs : Array Int) : Nat → Int := fun i => cs.getD i 0
+
+/-! words and strings -/
+
+def parseU (s : String) : Option UInt64 := s.toNat?.map UInt64.ofNat
+def parseI (s : String) : Option UInt64 := s.toInt?.map fun i => (Int64.ofInt i).toUInt64
+def showU (v : UInt64) : String := toString v.toNat
+def showI (v : UInt64) : String := toString v.toInt64.toInt
+
+def hexVal (c : Char) : Option Nat :=
+  if '0' ≤ c ∧ c ≤ '9' then some (c.toNat - '0'.toNat)
+  else if 'a' ≤ c ∧ c ≤ 'f' then some (c.toNat - 'a'.toNat + 10)
+  else none
+
+def parseHexList : List Char → Option (List UInt8)
+  | [] => some []
+  | h :: l :: rest => do
+    let h ← hexVal h; let l ← hexVal l; let r ← parseHexList rest
+    pure (UInt8.ofNat (16*h + l) :: r)
+  | _ => none
+
+def parseS (s : String) : Option (List UInt8) :=
+  match s.toList with
+  | 'x' :: rest => parseHexList rest
+  | _ => none
+
+def hexDigit (n : Nat) : Char := if n < 10 then Char.ofNat (48 + n) else Char.ofNat (87 + n)
+
+def showS (s : List UInt8) : String :=
+  String.ofList ('x' :: s.flatMap fun b => [hexDigit (b.toNat / 16), hexDigit (b.toNat % 16)])
+
+def zeroElem : Elem := (0, 0)
+
+def runOp (cmpName : String) (line : String) : String :=
+  let cmp := cmpOf cmpName
+  match words line with
+  | "sort" :: algo :: rest =>
+    let cmpSort (f : Array Elem → Outcome (Array Elem)) : String :=
+      match parseAll parseElem rest with
+      | some a => render (showArr showElem) (f a)
+      | none => "bad-op"
+    let wordSort (p : String → Option UInt64) (sh : UInt64 → String) (f : Array UInt64 → Outcome (Array UInt64)) : String :=
+      match parseAll p rest with
+      | some a => render (showArr sh) (f a)
+      | none => "bad-op"
+    let strSort (f : Array (List UInt8) → Outcome (Array (List UInt8))) : String :=
+      match parseAll parseS rest with
+      | some a => render (showArr showS) (f a)
+      | none => "bad-op"
+    match algo with
+    | "selection" => cmpSort (selection cmp)
+    | "insertion" => cmpSort (insertion cmp)
+    | "shell" => cmpSort (shell cmp)
+    | "merge" => cmpSort (mergeBU cmp zeroElem)
+    | "mergerec" => cmpSort (mergeRec cmp zeroElem)
+    | "quick3way" => cmpSort (quick3Way cmp)
+    | "heap" => cmpSort (heap cmp zeroElem)
+    | "quickcore" => cmpSort (quickCore cmp)
+    | "quick" => cmpSort (fun a => (quick (fun _ => 0) cmp a).map (canonRuns cmp))
+    | "lsduint" => wordSort parseU showU lsdUint
+    | "msduint" => wordSort parseU showU msdUint
+    | "lsdint" => wordSort parseI showI lsdInt
+    | "msdint" => wordSort parseI showI msdInt
+    | "msdstring" => strSort msdString
+    | "q3string" => strSort (q3String (fun _ => 0))
+    | _ => "bad-op"
+  | "select" :: k :: rest =>
+    match k.toInt?, parseAll parseElem rest with
+    | some k, some a => render (fun (r : Array Elem × Elem) => s!"ok {cls cmpName r.2.1}") (select (fun _ => 0) cmp a k)
+    | _, _ => "bad-op"
+  | "partition" :: lo :: hi :: rest =>
+    match lo.toInt?, hi.toInt?, parseAll parseElem rest with
+    | some lo, some hi, some a =>
+      render (fun (r : Array Elem × Int) => r.1.foldl (fun s e => s ++ " " ++ showElem e) s!"ok {r.2}") (partition cmp a lo hi)
+    | _, _, _ => "bad-op"
+  | "shuffle" :: cs :: rest =>
+    match parseChoices cs, parseAll parseElem rest with
+    | some cs, some a => render (showArr showElem) (shuffle (choiceFn cs) a)
+    | _, _ => "bad-op"
+  | "lsdstring" :: w :: rest =>
+    match w.toInt?, parseAll parseS rest with
+    | some w, some a => render (showArr showS) (lsdString a w)
+    | _, _ => "bad-op"
+  | op :: lo :: hi :: d :: rest =>
+    match lo.toInt?, hi.toInt?, d.toInt? with
+    | some lo, some hi, some d =>
+      match op with
+      | "msdintat" =>
+        match parseAll parseI rest with
+        | some a => render (showArr showI) (msdIntAt a lo hi d)
+        | none => "bad-op"
+      | "msduintat" =>
+        match parseAll parseU rest with
+        | some a => render (showArr showU) (msdUintAt a lo hi d)
+        | none => "bad-op"
+      | "msdstringat" =>
+        match parseAll parseS rest with
+        | some a => render (showArr showS) (msdStringAt a lo hi d)
+        | none => "bad-op"
+      | "q3stringat" =>
+        match parseAll parseS rest with
+        | some a => render (showArr showS) (q3StringAt a lo hi d)
+        | none => "bad-op"
+      | _ => "bad-op"
+    | _, _, _ => "bad-op"
+  | _ => "bad-op"
+
+/-- every op of a case is independent (each carries its own slice); after a `panic`/`hang` the
+harness ends the case, so the rest prints `skip`. -/
+def runCase (hdr : List String) (ops : List String) : List String := Id.run do
+  let cmpName := (headerGet hdr "cmp").getD "asc"
+  let mut dead := false
+  let mut out : Array String := #[]
+  for line in ops do
+    if dead then out := out.push "skip"; continue
+    let r := runOp cmpName line
+    if r == "panic" || r == "hang" then dead := true
+    out := out.push r
+  return out.toList
 
 end AlgoVerif.C07.Driver
